@@ -27,6 +27,7 @@ import (
 	"time"
 
 	"github.com/daeuniverse/dae/common/consts"
+	"github.com/daeuniverse/dae/config"
 	"github.com/daeuniverse/dae/component/dns"
 	dnsmessage "github.com/miekg/dns"
 	"github.com/sirupsen/logrus"
@@ -127,9 +128,19 @@ func c08Logger() *logrus.Logger {
 }
 
 func c08Option(cfg c08Cfg) *DnsControllerOption {
-	fixed := map[string]int{}
-	for k, v := range cfg.Fixed {
-		fixed[k] = v
+	// through the production parser of the fixed_domain_ttl section (control_plane.go)
+	var lines []config.KeyableString
+	keys := make([]string, 0, len(cfg.Fixed))
+	for k := range cfg.Fixed {
+		keys = append(keys, k)
+	}
+	sort.Strings(keys)
+	for _, k := range keys {
+		lines = append(lines, config.KeyableString(fmt.Sprintf("%s: %d", k, cfg.Fixed[k])))
+	}
+	fixed, err := ParseFixedDomainTtl(lines)
+	if err != nil {
+		panic("ParseFixedDomainTtl: " + err.Error())
 	}
 	return &DnsControllerOption{
 		Log: c08Logger(),
